@@ -43,6 +43,23 @@ type hubObs struct {
 	Steps []hubStepObs `json:"steps"`
 }
 
+// canonForks makes the order of a with-forks snapshot comparable with the model WITHOUT hiding the order the
+// implementation delivered: blocks of EQUAL height come out of a Go map in random order, so each run of equal heights
+// is sorted by id; the order of the heights themselves is left exactly as delivered (the property demands
+// "non-decreasing height": a snapshot that is not non-decreasing must reach the checker as it is).  W1 audit: the
+// harness used to sort the whole list by (height, id), which made that clause unobservable.
+func canonForks(l []fkBlock) {
+	for i := 0; i < len(l); {
+		j := i + 1
+		for j < len(l) && l[j].Num == l[i].Num {
+			j++
+		}
+		run := l[i:j]
+		sort.SliceStable(run, func(a, b int) bool { return run[a].ID < run[b].ID })
+		i = j
+	}
+}
+
 type passSource struct {
 	*shutter.Shutter
 	blocks []fkBlock
@@ -221,12 +238,7 @@ func hubRun(in *hubInput) (*hubObs, string) {
 						for _, pb := range blocks {
 							ans.Forks = append(ans.Forks, fkFromPB(pb.Block))
 						}
-						sort.SliceStable(ans.Forks, func(a, b int) bool {
-							if ans.Forks[a].Num != ans.Forks[b].Num {
-								return ans.Forks[a].Num < ans.Forks[b].Num
-							}
-							return ans.Forks[a].ID < ans.Forks[b].ID
-						})
+						canonForks(ans.Forks)
 					}
 					sub.Shutdown(nil)
 				}
